@@ -72,6 +72,45 @@ Example C14_remodel_during_refresh_rejected :
   rejected refresh_in_progress (Request (bs "remodel") false false None true [2] [mkTask [2] false]) = false.
 Proof. exact remodel_during_refresh_rejected. Qed.
 
+(* the conflict matrix as an equivalence. First the two tables of in-progress changes that stop a request whatever
+   snaps it names (new_excl = false: every request; new_excl = true: a request that must itself run exclusively) ... *)
+Theorem C14_exclusive_table : forall (new_excl : bool) (ignore : option N) (c : change),
+  excl_hit new_excl ignore c =
+  negb (c_ready c) &&
+  (kind_in (c_kind c) excl_always
+   || (kind_in (c_kind c) excl_ignorable && negb (is_ignored c ignore))
+   || (kind_in (c_kind c) excl_downgrade && negb (is_ignored c ignore) && (c_dg c || new_excl))
+   || (negb (kind_in (c_kind c) excl_always) && negb (kind_in (c_kind c) excl_ignorable)
+       && negb (kind_in (c_kind c) excl_downgrade) && new_excl)).
+Proof. exact excl_hit_table. Qed.
+Print Assumptions C14_exclusive_table.
+
+(* ... then: for every state and every request, the request is refused IF AND ONLY IF an exclusive change is in
+   progress, or an in-progress non-exempt change other than the requesting one has a task affecting one of the snaps
+   the request names, or the snap record is stale, or the request must run exclusively and some other change is in
+   progress. (After a refusal the state is unchanged: C14_rejected_creates_nothing.) *)
+Theorem C14_refused_iff : forall (st : state) kind dg re ignore same snaps tasks,
+  rejected st (Request kind dg re ignore same snaps tasks) = true <->
+  (exists c, In c st /\ excl_hit false ignore c = true) \/
+  (exists c x, In c st /\ relevant ignore c = true /\ In x snaps /\ touches c [x] = true) \/
+  same = false \/
+  (re = true /\ exists c, In c st /\ excl_hit true ignore c = true).
+Proof. exact rejected_iff. Qed.
+Print Assumptions C14_refused_iff.
+
+Theorem C14_accepted_creates : forall (st : state) kind dg re same snaps tasks,
+  rejected st (Request kind dg re None same snaps tasks) = false ->
+  step st (Request kind dg re None same snaps tasks) = st ++ [mkChange (next_id st) kind dg tasks].
+Proof. exact accepted_creates. Qed.
+Print Assumptions C14_accepted_creates.
+
+Example C14_matrix_example :
+  rejected matrix_state (Request (bs "remove-snap") false false None true [1; 2] [mkTask [1] false]) = true /\
+  rejected matrix_state (Request (bs "remove-snap") false false None true [2] [mkTask [2] false]) = false /\
+  rejected matrix_state (Request (bs "remodel") false true None true [2] [mkTask [2] false]) = true /\
+  rejected (step matrix_state (Progress 1 0 true)) (Request (bs "remove-snap") false false None true [1] [mkTask [1] false]) = false.
+Proof. exact matrix_example. Qed.
+
 (* an operation whose snap record changed while the request was being prepared is rejected *)
 Theorem C14_stale_snapstate_rejected : forall (st : state) kind dg re ignore snaps tasks,
   rejected st (Request kind dg re ignore false snaps tasks) = true.
